@@ -535,6 +535,9 @@ pub fn run(o: &Opts) -> Report {
             // below a directory that (on the overlay) exists only in the lower layer
             vec!["/c/x", "/c/y"],
             vec!["/c/x/p", "/c/y/q"],
+            // … and after that directory was removed through the overlay (marker present)
+            vec!["!/c/x", "/c/y"],
+            vec!["!/c", "/c/x"],
         ];
         let cap = if o.thorough() { 10000 } else { 600 };
         for backend in backends {
@@ -542,8 +545,16 @@ pub fn run(o: &Opts) -> Report {
                 if ps.len() == 3 && backend != "mem" && !o.thorough() {
                     continue;
                 }
-                let prog = Program { init: vec![], threads: ps.iter().map(|p| vec![Call::CreateDirAll(p.to_string())]).collect(), backend };
-                let desc = format!("[{}] {}", backend, ps.iter().map(|p| format!("create_dir_all({})", p)).collect::<Vec<_>>().join(" || "));
+                // "/c!…": the same paths after the lower-layer directory /c was REMOVED through the overlay
+                // earlier (not concurrently): a deletion marker is in place when the threads start
+                let removed_first = ps[0].starts_with('!');
+                if removed_first && !backend.starts_with("ovl") {
+                    continue;
+                }
+                let ps: Vec<&str> = ps.iter().map(|p| p.trim_start_matches('!')).collect();
+                let ps = &ps;
+                let prog = Program { init: if removed_first { vec![Call::RemoveDir("/c".into())] } else { vec![] }, threads: ps.iter().map(|p| vec![Call::CreateDirAll(p.to_string())]).collect(), backend };
+                let desc = format!("[{}]{} {}", backend, if removed_first { " after remove_dir(/c):" } else { "" }, ps.iter().map(|p| format!("create_dir_all({})", p)).collect::<Vec<_>>().join(" || "));
                 rep.sample(desc.clone());
                 let mut bad: Option<(String, Vec<usize>)> = None;
                 // every prefix of every requested path, observed after EVERY explored schedule
@@ -580,13 +591,16 @@ pub fn run(o: &Opts) -> Report {
                     }
                 }
                 if let Some((what, schedule)) = bad {
-                    rep.fail(Fail { oracle: "prop".into(), signature: format!("{}:create_dir_all-fails-concurrently", if backend == "mem" { "mem" } else if backend.starts_with("alt") { "alt" } else { "ovl" }), what: format!("{} under schedule {:?}: {}", desc, schedule, what), script: vec![desc.clone(), format!("schedule {:?}", schedule)], impl_out: what, model_out: String::new() });
+                    rep.fail(Fail { oracle: "prop".into(), signature: format!("{}:create_dir_all-fails-concurrently{}", if backend == "mem" { "mem" } else if backend.starts_with("alt") { "alt" } else { "ovl" }, if removed_first { ":below-a-removed-directory" } else { "" }), what: format!("{} under schedule {:?}: {}", desc, schedule, what), script: vec![desc.clone(), format!("schedule {:?}", schedule)], impl_out: what, model_out: String::new() });
                 }
             }
         }
         // prefixes are directories: one more pass with random schedules and a final is_dir check
         for backend in backends {
             for ps in &path_sets {
+                if ps[0].starts_with('!') {
+                    continue;
+                }
                 let prog = Program { init: vec![], threads: ps.iter().map(|p| vec![Call::CreateDirAll(p.to_string())]).collect(), backend };
                 let mut r = rng.fork();
                 let (root, _) = make_root(backend, &scratch, &mut n);
